@@ -24,3 +24,11 @@ Proof. reflexivity. Qed.
    destination object (syntactic, read off the source by tools/gen_netconsts.py on every run). *)
 Lemma repo_single_writer : single_writer_once_guarded = true.
 Proof. reflexivity. Qed.
+
+(* Net/Handshake.v models one connection: handle_conn is a function of that connection's byte stream alone, so in the model
+   a connection whose reader never gets input (a stalled client) cannot influence any other connection.  For /repo this
+   needs every accepted connection to be served by a goroutine of its own and the single accept goroutine never to wait
+   for a client: the accept loop mentions the accepted connection only in `go handleConn(...)` (syntactic, read off the
+   source by tools/gen_netconsts.py on every run). *)
+Lemma repo_accept_hands_off : accept_loop_hands_off = true.
+Proof. reflexivity. Qed.
